@@ -177,6 +177,16 @@ while changed:
             reaches[n] = True
             changed = True
 
+# closure: which fns transitively reach `self.poison(..)`
+poisons = {n: bool(re.search(r"\bself" + W + r"\." + W + r"poison\(", f["body"])) for n, f in fns.items()}
+changed = True
+while changed:
+    changed = False
+    for n, f in fns.items():
+        if not poisons[n] and any(poisons[c] for _, c in calls_of(f["body"])):
+            poisons[n] = True
+            changed = True
+
 # sanity: mutation_lease is "shared gate, then ensure_mutable?"
 ml = fns["mutation_lease"]["body"]
 mr = re.search(PATTERNS[0][1], ml)
@@ -401,7 +411,7 @@ for name in fns:
     callees = sorted(set(c for _, c in calls_of(f["body"])))
     rows.append(
         f'  {{ name := "{name}", vis := {f["vis"]}, isAsync := {"true" if f["is_async"] else "false"}, recv := .{f["recv"]},\n'
-        f'    reaches := {"true" if reaches[name] else "false"}, direct := {"true" if direct_mut(f["body"]) else "false"},\n'
+        f'    reaches := {"true" if reaches[name] else "false"}, direct := {"true" if direct_mut(f["body"]) else "false"}, poisons := {"true" if poisons[name] else "false"},\n'
         f'    skel := [{", ".join("." + k for k in sk)}],\n'
         f'    calls := [{", ".join(chr(34) + c + chr(34) for c in callees)}] }}')
 text2 = f"""/- GENERATED by bin/translate/c06_guards.py from rs/anda_db/src/collection.rs — do not edit. -/
@@ -442,6 +452,8 @@ structure Method where
   reaches : Bool
   /-- contains a storage mutation call itself -/
   direct : Bool
+  /-- transitively reaches `self.poison(..)` -/
+  poisons : Bool
   skel : List Mk
   calls : List String
 
